@@ -75,6 +75,9 @@ class Filenames(object):
         self.files = self.parseFilenames(spec)
         self.charsub = charsub or []
         self.variables = variables or {}
+        # The namespace every request starts from.  It must be captured now:
+        # the generator body does not run before the first name is requested.
+        self._initialVariables = self.variables.copy()
         self.extension = extension
         self.invalid = invalid or {}
         self.newFilename = self._newFilename()
@@ -139,7 +142,7 @@ class Filenames(object):
 
     def _newFilename(self):
         """ Generator that generates new filenames """
-        g = self.variables.copy()
+        g = self._initialVariables
 
         # Split filenames into static and wildcard groups
         static = []
